@@ -279,8 +279,10 @@ def judgeC18 (op : POp) (out : String) : Expect :=
     if fr != .tcp then .free else
     let adu := Spec.adu fr tid a
     if k < 8 then .exact "n=0 err tooShortT" else .exact s!"n={adu.length} nil"
-  | .hdr h _ =>
+  | .hdr h body =>
     if h.length != 8 then .free else
+    -- the clause is about frames of which all announced bytes are available
+    if beVal h 4 + 6 > 8 + body.length then .noPanic else
     match out.splitOn " | " with
     | [l] =>
       -- classifier did not accept: if it named an unsupported function it must carry the matching exception
